@@ -1,14 +1,15 @@
 /* functional twin of kernel_hash_many.h: the contract's UF clause speaks about blocks <= 16 only, so
- * the 16 rows are fixed 1024-byte arrays (constant-size objects need no array theory); num_inputs,
- * blocks <= 16 and every scalar are nondeterministic; rows may also be shorter than 1024 bytes as far as
- * the function can tell (it is given 64*blocks) */
+ * the 16 rows are 16 separate fixed 1024-byte objects (constant size and 64-bit elements: no array
+ * theory, constant offsets inside every row); num_inputs, blocks <= 16 and every scalar are
+ * nondeterministic; the function is told that a row has 64*blocks bytes */
+#define ROW(i) uint64_t row##i[128]; rows[i] = (const uint8_t *)row##i
 void harness(void) {
   VERIF_PROLOGUE();
-  uint64_t row_words[16][128];     /* 1024 bytes each; 64-bit elements keep cbmc from using array theory */
   const uint8_t *rows[16];
+  ROW(0); ROW(1); ROW(2); ROW(3); ROW(4); ROW(5); ROW(6); ROW(7);
+  ROW(8); ROW(9); ROW(10); ROW(11); ROW(12); ROW(13); ROW(14); ROW(15);
   size_t num_inputs, blocks;
   __CPROVER_assume(num_inputs <= 16 && blocks <= 16);
-  for (size_t i = 0; i < 16; i++) rows[i] = (const uint8_t *)row_words[i];
   uint32_t key[8];
   uint8_t out[512];
   uint64_t counter;
